@@ -298,6 +298,8 @@ def syncCall (env : DEnv) (s : DState) (caller : SessKey) (req : Nat) (opts : Di
     else
     let s :=
       if timeout > 0 then
+        -- the call's timeout restarts: the timer armed by an earlier chunk is cancelled first
+        let s := s.cancelTimer invk.timer
         let tid := s.nextTimer + 1
         let t : Timer := { id := tid, deadline := env.now + min timeout maxTimeoutMs, caller := caller, req := req }
         { s with timers := s.timers ++ [t], nextTimer := tid,
